@@ -314,13 +314,23 @@ impl TerminalRenderer {
                 new.kind = CellKind::Image(image);
             }
 
+            // a character that is itself covered (it is behind a wide character
+            // or under an image) is not shown, the columns behind it are not its
+            // own, they only need to be repainted if it was shown before
+            let mark = self.marks.get(pos).copied().unwrap_or_default();
+            let new_mark = if mark == CellMark::Ignored && matches!(new.kind, CellKind::Char(_)) {
+                CellMark::Damaged
+            } else {
+                CellMark::Ignored
+            };
+
             // skip cells that have not changed, go over ignored items too as they
             // might remove old images.
-            if old == new && self.marks.get(pos) != Some(&CellMark::Damaged) {
+            if old == new && mark != CellMark::Damaged {
                 // cells under the image and behind the wide character need to
                 // be marked as ignored
                 let (rows, cols) = cell_extent(new, pos, pixels_per_cell);
-                self.marks.view_mut(rows, cols).fill(CellMark::Ignored);
+                self.marks.view_mut(rows, cols).fill(new_mark);
                 continue;
             }
 
@@ -336,7 +346,7 @@ impl TerminalRenderer {
                 self.images.push((pos, new.face, image.clone()));
             }
             let (rows, cols) = cell_extent(new, pos, pixels_per_cell);
-            self.marks.view_mut(rows, cols).fill(CellMark::Ignored);
+            self.marks.view_mut(rows, cols).fill(new_mark);
         }
 
         // Second pass
